@@ -2431,6 +2431,10 @@ class Discrimination(Output):
             for i in range(len(edges) - 1):
                 y0[f, i] = np.mean((p[I0] >= edges[i]) & (p[I0] < edges[i + 1])) * 100
                 y1[f, i] = np.mean((p[I1] >= edges[i]) & (p[I1] < edges[i + 1])) * 100
+                if i == len(edges) - 2:
+                    # The last bin includes its upper edge (a probability of exactly 1)
+                    y0[f, i] = np.mean((p[I0] >= edges[i]) & (p[I0] <= edges[i + 1])) * 100
+                    y1[f, i] = np.mean((p[I1] >= edges[i]) & (p[I1] <= edges[i + 1])) * 100
 
             # Figure out where to put the bars. Each file will have pairs of
             # bars, so try to space them nicely.
